@@ -12,7 +12,25 @@ fn level_of(id: &str) -> &'static str {
     }
 }
 
+struct StderrLog;
+impl log::Log for StderrLog {
+    fn enabled(&self, m: &log::Metadata) -> bool {
+        m.level() <= log::Level::Warn && m.target().starts_with("selium")
+    }
+    fn log(&self, r: &log::Record) {
+        if self.enabled(r.metadata()) {
+            eprintln!("[{} {}] {}", r.level(), r.target(), r.args());
+        }
+    }
+    fn flush(&self) {}
+}
+static STDERR_LOG: StderrLog = StderrLog;
+
 fn main() {
+    // VERIF_DEBUG: show what the code under test logs at warn/error level (diagnosis only)
+    if std::env::var_os("VERIF_DEBUG").is_some() && log::set_logger(&STDERR_LOG).is_ok() {
+        log::set_max_level(log::LevelFilter::Warn);
+    }
     let args: Vec<String> = std::env::args().collect();
     if args.len() >= 2 && args[1] == "--gen-corpus" { gen_corpus(); return; }
     if args.len() < 3 { usage(); }
